@@ -23,15 +23,16 @@ CONSTANTS Catalogue, MaxOps, BatchIds, Dev
 VARIABLES segs,    \* Seq([c : content, kind : "built" | "merged" | "loaded"])
           bms,     \* Seq(SUBSET Nat): caller-owned bitmaps
           pls,     \* Seq([seg, field, term, ex : bitmap handle or 0, gen : generation of the object])
-          its,     \* Seq([pl, plgen, idx, dead])
+          its,     \* Seq([pl, plgen, idx, closed])
+          accs,    \* Seq([val, origin]): statistics objects (origin: the (segment, field) lookup that produced them)
           hist, last
-vars == <<segs, bms, pls, its, hist, last>>
-view == <<segs, bms, pls, its, last>>
+vars == <<segs, bms, pls, its, accs, hist, last>>
+view == <<segs, bms, pls, its, accs, last>>
 
 Op(o) == hist' = Append(hist, o)
 Can == Len(hist) < MaxOps
 
-Init == segs = <<>> /\ bms = <<>> /\ pls = <<>> /\ its = <<>> /\ hist = <<>> /\ last = [kind |-> "none"]
+Init == segs = <<>> /\ bms = <<>> /\ pls = <<>> /\ its = <<>> /\ accs = <<>> /\ hist = <<>> /\ last = [kind |-> "none"]
 
 NDocs(s) == Len(segs[s].c.docs)
 Vocab == {<<"a", <<120>>>>, <<"a", <<121>>>>, <<"b", <<120>>>>, <<"_id", <<48>>>>, <<"a", <<>>>>, <<"zz", <<120>>>>}
@@ -40,13 +41,13 @@ GBuild(b) ==
     /\ Can /\ Len(segs) < 3
     /\ segs' = Append(segs, [c |-> Build(Catalogue[b]), kind |-> "built"])
     /\ Op([op |-> "build", batch |-> b, seg |-> Len(segs) + 1])
-    /\ last' = [kind |-> "build"] /\ UNCHANGED <<bms, pls, its>>
+    /\ last' = [kind |-> "build"] /\ UNCHANGED <<bms, pls, its, accs>>
 
 GDefBm(docs) ==
     /\ Can /\ Len(bms) < 2
     /\ bms' = Append(bms, docs)
     /\ Op([op |-> "def_bm", bm |-> Len(bms) + 1, docs |-> SetToSorted(docs, <)])
-    /\ last' = [kind |-> "def_bm"] /\ UNCHANGED <<segs, pls, its>>
+    /\ last' = [kind |-> "def_bm"] /\ UNCHANGED <<segs, pls, its, accs>>
 
 \* Merge(inputs, drops): drops are caller-owned bitmaps (0 = nil)
 GMerge(ins, dr) ==
@@ -60,13 +61,13 @@ GMerge(ins, dr) ==
     /\ last' = [kind |-> "merge"]
     \* deviation: the merger run-optimises / clears the caller's bitmap
     /\ bms' = IF "MergeTouchesBitmap" \in Dev /\ dr[1] # 0 THEN [bms EXCEPT ![dr[1]] = {}] ELSE bms
-    /\ UNCHANGED <<pls, its>>
+    /\ UNCHANGED <<pls, its, accs>>
 
 GPersistLoad(s) ==
     /\ Can /\ s \in DOMAIN segs /\ Len(segs) < 4
     /\ segs' = Append(segs, [c |-> segs[s].c, kind |-> "loaded"])
     /\ Op([op |-> "persist_load", from |-> s, seg |-> Len(segs) + 1])
-    /\ last' = [kind |-> "persist_load"] /\ UNCHANGED <<bms, pls, its>>
+    /\ last' = [kind |-> "persist_load"] /\ UNCHANGED <<bms, pls, its, accs>>
 
 \* Dictionary(field).PostingsList(term, except, prealloc)
 GPlOpen(s, ft, ex, pre) ==
@@ -79,17 +80,17 @@ GPlOpen(s, ft, ex, pre) ==
                       fresh |-> Cardinality(ListDocs(Postings(segs[s].c, ft[1], ft[2])) \ exset)]
     /\ Op([op |-> "pl_open", seg |-> s, field |-> ft[1], term |-> ft[2], ex |-> ex, prealloc |-> pre,
            pl |-> IF pre = 0 THEN Len(pls) + 1 ELSE pre])
-    /\ UNCHANGED <<segs, bms, its>>
+    /\ UNCHANGED <<segs, bms, its, accs>>
 
 GItOpen(p, pre) ==
     /\ Can /\ p \in DOMAIN pls /\ pre \in 0..Len(its) /\ Len(its) < 3
-    /\ LET new == [pl |-> p, plgen |-> pls[p].gen, idx |-> 0] IN
+    /\ LET new == [pl |-> p, plgen |-> pls[p].gen, idx |-> 0, closed |-> FALSE] IN
        its' = IF pre = 0 THEN Append(its, new) ELSE [its EXCEPT ![pre] = new]
     /\ Op([op |-> "it_open", pl |-> p, prealloc |-> pre, it |-> IF pre = 0 THEN Len(its) + 1 ELSE pre])
-    /\ last' = [kind |-> "it_open"] /\ UNCHANGED <<segs, bms, pls>>
+    /\ last' = [kind |-> "it_open"] /\ UNCHANGED <<segs, bms, pls, accs>>
 
 \* an iterator is usable while its list object still holds the list it was opened on
-Live(i) == i \in DOMAIN its /\ pls[its[i].pl].gen = its[i].plgen
+Live(i) == i \in DOMAIN its /\ pls[its[i].pl].gen = its[i].plgen /\ ~its[i].closed
 
 GItStep(i, d) ==
     /\ Can /\ Live(i)
@@ -100,12 +101,53 @@ GItStep(i, d) ==
        IN /\ its' = [its EXCEPT ![i].idx = IF j = 0 THEN Len(list) ELSE j]
           /\ last' = [kind |-> "it_step", doc |-> IF j = 0 THEN -1 ELSE list[j].doc]
     /\ Op([op |-> IF d = 0 THEN "it_next" ELSE "it_adv", it |-> i, d |-> d])
-    /\ UNCHANGED <<segs, bms, pls>>
+    /\ UNCHANGED <<segs, bms, pls, accs>>
+
+\* Close(): the iterator may only be handed back as prealloc afterwards
+GItClose(i) ==
+    /\ Can /\ Live(i)
+    /\ its' = [its EXCEPT ![i].closed = TRUE]
+    /\ Op([op |-> "it_close", it |-> i])
+    /\ last' = [kind |-> "it_close"] /\ UNCHANGED <<segs, bms, pls, accs>>
+
+\* Dictionary(field).Close(): nothing else notices
+GDictClose(s, f) ==
+    /\ Can /\ s \in DOMAIN segs
+    /\ Op([op |-> "dict_close", seg |-> s, field |-> f])
+    /\ last' = [kind |-> "dict_close"] /\ UNCHANGED <<segs, bms, pls, its, accs>>
+
+\* CollectionStats(field) hands the caller an object; Merge adds another object to it
+StatFields == {"a", "b", "_id", "zz"}
+GStatsGet(s, f) ==
+    /\ Can /\ s \in DOMAIN segs /\ Len(accs) < 3
+    /\ accs' = Append(accs, [val |-> Stats(segs[s].c, f), known |-> KnownField(segs[s].c, f)])
+    /\ Op([op |-> "stats_get", seg |-> s, field |-> f, r |-> Len(accs) + 1])
+    /\ last' = [kind |-> "stats_get"] /\ UNCHANGED <<segs, bms, pls, its>>
+
+GStatsAdd(a, b) ==
+    /\ Can /\ a \in DOMAIN accs /\ b \in DOMAIN accs /\ a # b
+    /\ accs' = [k \in DOMAIN accs |->
+                   IF k = a \/ ("SharedEmptyStats" \in Dev /\ ~accs[a].known /\ ~accs[k].known)
+                   THEN [accs[k] EXCEPT !.val = StatsAdd(accs[k].val, accs[b].val)]       \* deviation: one shared object
+                   ELSE accs[k]]                                                           \* for all unknown fields
+    /\ Op([op |-> "stats_add", r |-> a, r2 |-> b])
+    /\ last' = [kind |-> "stats_add", a |-> a] /\ UNCHANGED <<segs, bms, pls, its>>
+
+GStatsRead(a) ==
+    /\ Can /\ a \in DOMAIN accs
+    /\ Op([op |-> "stats_read", r |-> a])
+    /\ last' = [kind |-> "stats_read"] /\ UNCHANGED <<segs, bms, pls, its, accs>>
+
+\* VisitStoredFields(n) whose visitor stops after `stop` fields (0 = never)
+GStored(s, n, stop) ==
+    /\ Can /\ s \in DOMAIN segs
+    /\ Op([op |-> "stored", seg |-> s, n |-> n, stop |-> stop])
+    /\ last' = [kind |-> "stored"] /\ UNCHANGED <<segs, bms, pls, its, accs>>
 
 GRead(s, what) ==
     /\ Can /\ s \in DOMAIN segs
     /\ Op([op |-> what, seg |-> s])
-    /\ last' = [kind |-> what] /\ UNCHANGED <<segs, bms, pls, its>>
+    /\ last' = [kind |-> what] /\ UNCHANGED <<segs, bms, pls, its, accs>>
 
 Next ==
     \/ \E b \in BatchIds : GBuild(b)
@@ -115,13 +157,21 @@ Next ==
     \/ \E s \in DOMAIN segs : \E ft \in Vocab : \E ex \in 0..Len(bms) : \E pre \in 0..Len(pls) : GPlOpen(s, ft, ex, pre)
     \/ \E p \in DOMAIN pls : \E pre \in 0..Len(its) : GItOpen(p, pre)
     \/ \E i \in DOMAIN its : \E d \in 0..2 : GItStep(i, d)
-    \/ \E s \in DOMAIN segs : \E w \in {"observe", "stored", "match"} : GRead(s, w)
+    \/ \E s \in DOMAIN segs : \E w \in {"observe", "match"} : GRead(s, w)
+    \/ \E i \in DOMAIN its : GItClose(i)
+    \/ \E s \in DOMAIN segs : \E f \in {"a", "_id"} : GDictClose(s, f)
+    \/ \E s \in DOMAIN segs : \E f \in StatFields : GStatsGet(s, f)
+    \/ \E a, b \in DOMAIN accs : GStatsAdd(a, b)
+    \/ \E a \in DOMAIN accs : GStatsRead(a)
+    \/ \E s \in DOMAIN segs : \E n \in 0..2 : \E stop \in 0..1 : GStored(s, n, stop)
 
 Spec == Init /\ [][Next]_vars
 
 \* C15: segments and caller-owned bitmaps are immutable (tables only grow)
 SegmentsImmutable == [][\A h \in DOMAIN segs : h \in DOMAIN segs' /\ segs'[h] = segs[h]]_vars
 BitmapsImmutable == [][\A k \in DOMAIN bms : k \in DOMAIN bms' /\ bms'[k] = bms[k]]_vars
+\* C15/C16: Merge changes its receiver only
+StatsIndependent == [][\A k \in DOMAIN accs : k \in DOMAIN accs' /\ (last'.kind # "stats_add" \/ last'.a # k) => accs'[k] = accs[k]]_vars
 \* C13: a lookup yields what a fresh object would yield
 ReuseTransparent == last.kind = "pl_open" => last.count = last.fresh
 
